@@ -65,14 +65,18 @@ Admit(cfg, s, k) ==
   LET b == BinOf(cfg, s, k)
   IN b # "" /\ (s.busy < s.limit \/ BinBusy(s, b) < BinLimit(s, b))
 
+(* C20: a grant emits one in-flight sample, tagged with the partition charged, whose value is that partition's count *)
+(* including the new token; a refusal emits none                                                                      *)
+TagOf(cfg, b) == "partition:" \o (IF b = UNKNOWN THEN UNKNOWN ELSE IF cfg.kind = "lookup" THEN cfg.objs[b].name ELSE b)
+
 Try(cfg, s, k) ==
   LET b == BinOf(cfg, s, k) IN
   IF Admit(cfg, s, k)
   THEN [st |-> IF b = UNKNOWN
                THEN [s EXCEPT !.busy = @ + 1, !.ub = @ + 1]
                ELSE [s EXCEPT !.busy = @ + 1, !.ob[b] = @ + 1],
-        res |-> [ok |-> TRUE, bin |-> b]]
-  ELSE [st |-> s, res |-> [ok |-> FALSE, bin |-> "?"]]
+        res |-> [ok |-> TRUE, bin |-> b, sample |-> [tag |-> TagOf(cfg, b), v |-> BinBusy(s, b) + 1]]]
+  ELSE [st |-> s, res |-> [ok |-> FALSE, bin |-> "?", sample |-> [tag |-> "", v |-> 0]]]
 
 CanRelease(s, b) == IF b = UNKNOWN THEN s.ub > 0 ELSE s.ob[b] > 0
 
